@@ -22,7 +22,7 @@ import ast
 import os
 
 from .pytr import Shape, HEADER, txt
-from .exec_translate import paren, some_name
+from .exec_translate import paren, some_name, canonical_locals, _Rename
 
 PATH = "robotpy_ext/autonomous/stateful_autonomous.py"
 MFIELDS = ["enabled", "cur", "fin", "sdat", "dur"]
@@ -95,6 +95,18 @@ class Tr:
             f = self.methods.get(m)
             if f is None or f.decorator_list or len(f.args.args) != k:
                 raise Shape("StatefulAutonomous.%s not found / unexpected signature" % m)
+        # parameters and locals are recognised by position / by what is first assigned to them, not by their spelling
+        for m, canon in (("on_iteration", "tm"), ("next_state", "name")):
+            f = self.methods[m]
+            p = f.args.args[1].arg
+            if p != canon and canon not in {n.id for n in ast.walk(f) if isinstance(n, ast.Name)}:
+                f.args.args[1].arg = canon
+                self.methods[m] = ast.fix_missing_locations(_Rename({p: canon}).visit(f))
+        self.methods["on_iteration"] = canonical_locals(self.methods["on_iteration"], [
+            ("state", lambda rhs, f: rhs == "self.__state"),
+            ("new_state_start", lambda rhs, f: rhs == "tm"),
+            ("initial_call", lambda rhs, f: "state" in f and rhs == "not %s.ran" % f["state"]),
+        ])
 
     def state_name(self, env, what):
         s = some_name(env.ref(env.loc.get("state", "None")))
